@@ -20,12 +20,14 @@ def cases(rng, tier):
     yield {"continuum": {"a": [[0.0, 1.0, "x"], [1.0, 2.0, "x"]], "b": [[0.0, 50.0, "x"], [0.5, 60.0, "x"]]}, "w": 1, "dissim": ["combined", 1.0, 1.0, 1.0, None]}
     yield {"continuum": {"a": [[0.0, 1.0, "x"], [1.0, 2.0, "x"]], "b": [[0.0, 5.0, "x"], [0.0, 6.0, "x"]]}, "w": 1, "dissim": ["positional", 1.0]}
     k = 0
-    for n, mx, cnt in ((2, 4, 14), (3, 3, 10), (4, 2, 4)):
+    for n, mx, cnt in ((2, 4, 12), (3, 3, 8), (4, 2, 4)):
         for spec in common.grid_continua(rng, n, mx, 14, ["a", "b"], allow_empty=True, count=cnt if tier == "quick" else cnt * 6):
             if sum(len(v) for v in spec.values()) == 0:
                 continue
             tot = sum(len(v) for v in spec.values())
-            yield {"continuum": spec, "w": rng.randint(1, -(-tot // n) + 1), "dissim": DISSIMS[k % len(DISSIMS)]}
+            # the statement's quantifier: every window size 1 .. ceil(units / annotators) + 1 (the last two cover the whole continuum)
+            for w in range(1, -(-tot // n) + 2):
+                yield {"continuum": spec, "w": w, "dissim": DISSIMS[k % len(DISSIMS)]}
             k += 1
 
 
